@@ -10,7 +10,8 @@
              M.<key>.<hex>   |  M.<key>.~                             write | remove, then Evict
    answer  : one token per executed operation, then !index / !assert / !fatal if the run stopped
              L<guard>:<lines>:<fresh lines>   lines = nil | e | <lineno>,<text>,<raw>+<raw>,<fix>;...
-             X:<acted>   B   S:<key>=<hex>;...   M *)
+             X:<acted>   B   S:<key>=<hex>;...   M
+             every token is followed by @<coverage events of the model, see Extract/C20.v> *)
 let split_on c s = String.split_on_char c s
 let nat_of_string s = nat_of_int (int_of_string s)
 let n_of_string s = n_of_int (int_of_string s)
@@ -45,7 +46,8 @@ let show_lines (r : lobs list option) : string =
         string_of_int (int_of_n no) ^ "," ^ hex_of_bytes text ^ "," ^
         String.concat "+" (List.map hex_of_bytes raw) ^ "," ^ (if fix then "1" else "0")) ls)
 
-let show_obs ((g, fr), ob) : string =
+let show_obs (((g, fr), ob), ev) : string =
+  (fun t -> t ^ "@" ^ string_of_int (int_of_n ev)) @@
   match ob with
   | ObsLoad r -> "L" ^ (if g then "1" else "0") ^ ":" ^ show_lines r ^ ":" ^ show_lines fr
   | ObsFix a -> "X:" ^ (if a then "1" else "0")
